@@ -392,6 +392,8 @@ func main() {
 		"os.Create of the snapshot file succeeds in the MODEL; on the real code a failing os.Create is exercised by the directed scenario createfail (fix 881f68ff: the file goroutine now drains the channels and reports the file closed; before, the next save() parked in lastFileClosed.Wait and the next CommitBlockTxs hung holding db.Mutex)",
 		"UnspentDB.commit: the add/delete workers of one block touch pairwise different map keys - the map key is the first 8 bytes of the txid (UtxoKeyType), so this ASSUMES that no two transactions created or spent by one block share their first 8 txid bytes (hypothesis Nodup of disjoint_updates_commute; a collision needs about 2^32 work; checked on every block of the scenarios run: histogram commit:update-keys-distinct)",
 		"memory-level data races are observed only through the Go race detector on the schedules that were run",
+		"UTXO records kept in gocoin's recycling allocator (lib/others/memory, the client's default; replays named …alloc) live in mmap'ed memory the race detector does not see: a use of a freed record is observed only through VALUES there (UTXO dump, undo-file digest, snapshot content), under a seeded slow undo writer; the sequential reference always runs on the Go heap",
+		"Model/ConcOwn (Ring, Undo, Collect) abstracts a chunk / a record slot / a spent-output entry to one cell; that save(), the allocator and commitTxs refine them is tied by the three regenerated ownership facts (spawnAfterComplete, chunkBuffersOwned, changeSetOwnsScripts) and otherwise correspondence-tested only",
 	}
 	rep := o.MustAsk("facts")
 	if !strings.HasPrefix(rep, "ok 1 1") {
@@ -509,8 +511,10 @@ func main() {
 	r.Extra["replays_under_perturbed_schedules"] = nrep
 	r.Finish("cases: (1) every UTXO.db that became visible in a replay of the real code under a perturbed schedule (distinct by schedule, tip, content); "+
 		"(2) one vhook event trace per replay, checked by the Lean monitor; (3) commitTxs verdicts compared with the Lean fan-out model under a random schedule; "+
-		"(4) random programs x schedules of the Lean snapshot-protocol model (distinct by request; supports the theorems, which cover all of them). Non-trivial: a snapshot file with records, a trace with at least one save, a block with transactions, a model run with at least one step.",
+		"(4) random programs x schedules of the Lean snapshot-protocol model (distinct by request; supports the theorems, which cover all of them). Non-trivial: a snapshot file with records, a trace with at least one save, a block with transactions, a model run with at least one step. "+
+		"The observable result of a block op includes a digest of the tip's undo file; snapshots written to a stalled FIFO (directed bigsnap, more chunks than data_channel holds) count under snapshot:slow-disk.",
 		"The synchronisation protocols (snapshot writer vs committer, commitTxs fan-out, BlockDB publish-last, disjoint-key updates, atomic sums, compute-once caches) are modelled as transition systems with an arbitrary scheduler; "+
 			"snapshot_atomic, no_deadlock (data_channel capacity >= 1), commit_schedule_independent and the supporting invariants are proved in Lean for ALL programs and interleavings of those systems; the lock discipline and 16 protocol-shape facts are decided by the kernel on the synchronisation sequences regenerated from the source on this run. "+
-			"What no executable Lean model exhibits — and is therefore only explored, not proved — is the Go memory model itself: word tearing and reordering of unsynchronised accesses, the real goroutine scheduler, map-iteration order, and OS file semantics (two writers on one inode). Those, and the faithfulness of the hand-written transition systems beyond the shape facts, are covered by running the real code under the race detector with GOMAXPROCS 1..16 and pseudo-random yields/sleeps at every vhook point (chain scenarios, the directed same-tip resave, and a compressed-UTXO scenario with several SerializeC calls in flight), which samples schedules and proves nothing about the ones not run.")
+			"What no executable Lean model exhibits — and is therefore only explored, not proved — is the Go memory model itself: word tearing and reordering of unsynchronised accesses, the real goroutine scheduler, map-iteration order, and OS file semantics (two writers on one inode). Those, and the faithfulness of the hand-written transition systems beyond the shape facts, are covered by running the real code under the race detector with GOMAXPROCS 1..16 and pseudo-random yields/sleeps at every vhook point (chain scenarios, the directed same-tip resave, and a compressed-UTXO scenario with several SerializeC calls in flight), which samples schedules and proves nothing about the ones not run. "+
+			"Ownership of memory handed to another goroutine (chunk buffers of save(), undo entries vs the recycling record allocator, the start order of the script workers) is modelled in Model/ConcOwn.lean: safety for every schedule is proved for 'fresh buffer or ring of at least capacity+1', 'undo entries own copies', 'workers start after the collection', each with a counterexample for the alternative, and tied to the source by three regenerated facts; the real code is driven into those situations by taproot key-path consolidations (the sighash that reads all spent outputs), churn blocks on an aged recycling allocator with a slow undo writer, a run-to-block replay (one P, no yields) with Idle called twice and a commit right after Idle, and a big snapshot to a stalled disk.")
 }
